@@ -162,23 +162,40 @@ Definition args_size (args : list str) : nat :=
 Section Group.
   Variable D : optinfo.
 
-  (** options.try: first listed, non-excluded option that matches *)
-  Fixpoint try_opts (opts : list nat) (excluded : list nat) (args : list str)
-    : option (list str * list binding * list nat) :=
+  (** options.try (with the D4 and D8 repairs): the first listed, non-excluded option that finds an occurrence
+      of itself on the line; when none does, the first one that is satisfied by its environment value — which
+      is then excluded from the rest of the group match *)
+  Fixpoint try_consume (opts : list nat) (excluded : list nat) (args : list str)
+    : option (list str * list binding) :=
     match opts with
     | [] => None
     | o :: opts' =>
-      if mem_nat o excluded then try_opts opts' excluded args
+      if mem_nat o excluded then try_consume opts' excluded args
       else match m_opt D o args false with
-           | Some (rem, _, bs) =>
-             let excluded' :=
-                 match bs with
-                 | [] => if oi_fromenv D o then o :: excluded else excluded   (* D4 repair *)
-                 | _ => excluded
-                 end in
-             Some (rem, bs, excluded')
-           | None => try_opts opts' excluded args
+           | Some (rem, _, b :: bs) => Some (rem, b :: bs)
+           | _ => try_consume opts' excluded args
            end
+    end.
+
+  Fixpoint try_env (opts : list nat) (excluded : list nat) (args : list str) : option nat :=
+    match opts with
+    | [] => None
+    | o :: opts' =>
+      if mem_nat o excluded then try_env opts' excluded args
+      else match m_opt D o args false with
+           | Some (_, _, []) => if oi_fromenv D o then Some o else try_env opts' excluded args
+           | _ => try_env opts' excluded args
+           end
+    end.
+
+  Definition try_opts (opts : list nat) (excluded : list nat) (args : list str)
+    : option (list str * list binding * list nat) :=
+    match try_consume opts excluded args with
+    | Some (rem, bs) => Some (rem, bs, excluded)
+    | None => match try_env opts excluded args with
+              | Some o => Some (args, [], o :: excluded)
+              | None => None
+              end
     end.
 
   Definition try_ (opts excluded : list nat) (args : list str) (ro : bool) :=
